@@ -40,7 +40,8 @@ MANIFEST_TEXT = ('Registry of ~60 public functions/methods (text<->number conver
                  'before/after every call, the second call returns an equal result, an earlier result kept alive is unchanged by later '
                  'calls, and after explicit assignment into a result the same call on fresh equal arguments still returns the first value. Explicit-state search over every subset '
                  'of accessed fields (<= 8 fields quick / all fields thorough, every access order) of lazily read chunks of 12 '
-                 'formats on three root views: raw buffer bytes and written bytes unchanged in every state.')
+                 'formats on three root views: raw buffer bytes and written bytes unchanged in every state, field values after the write and field '
+                 'values of a sub-chunk sliced off before the accesses equal those of a fresh read.')
 MANIFEST_NOTE = 'Trusted: NumPy, the snapshot function in this file. Registry and menus bound the space.'
 TECHNIQUE = 'exhaustive registry enumeration with deep snapshots + explicit-state search over field-access sets'
 
@@ -220,6 +221,18 @@ def registry():
     add('table.add_fields', (lambda t, v: t.add_fields({'extra': v}, {'extra': int})), lambda: (T(), np.array([1, 2, 3])))
     add('Bed6.from_entry_tuples', (lambda rows: Bed6.from_entry_tuples(rows)), lambda: ([('c', 1, 2, 'n', 0, '+'), ('d', 3, 4, 'm', 5, '-')],))
     add('iter(table)', (lambda t: [dataclasses.astuple(e) for e in t]), lambda: (T(),))
+
+    # alignments: the eagerly read BAM table (every column is a plain array the snapshot sees) and hand-built CIGAR columns
+    import bionumpy.alignments as alignments
+    from bionumpy.alignments.cigar import count_reference_length
+    from bionumpy.encodings import CigarOpEncoding
+    from npstructures import RaggedArray
+
+    def cigar_args():
+        ops = bnp.as_encoded_array(['SMIM', 'M', 'HDNP=X', ''], CigarOpEncoding)
+        return ops, RaggedArray(np.array([3, 10, 2, 5, 7, 1, 2, 3, 4, 5, 6], dtype=np.int64), [4, 1, 6, 0])
+    add('alignments.alignment_to_interval', alignments.alignment_to_interval, lambda: (bnp.open(bam_root(), lazy=False).read(),))
+    add('alignments.cigar.count_reference_length', count_reference_length, cigar_args)
     return reg
 
 
@@ -570,6 +583,14 @@ def run_chunk_invariant(res, fmt, view, max_fields, deadline, only_hist=None):
         raise
     except Exception:
         orig_rows = None          # some field of this root cannot be read at all: judged elsewhere (C02/C05)
+    # a sub-chunk taken with a basic slice BEFORE the accesses shares the parent's offset tables: its field values, read
+    # after the accesses on the parent, must be what a fresh sub-chunk gives
+    try:
+        orig_sib_rows = rows_of(read_view(data, B, view)[0:2], names) if orig_rows is not None else None
+    except observe.ObserverError:
+        raise
+    except Exception:
+        orig_sib_rows = None
     seen = set()
     frontier = [()]
     feats = {'part': 'chunk', 'format': fmt, 'view': view}
@@ -591,6 +612,7 @@ def run_chunk_invariant(res, fmt, view, max_fields, deadline, only_hist=None):
                     continue
                 # replay on a fresh chunk
                 t = read_view(data, B, view)
+                sib = t[0:2] if orig_sib_rows is not None else None
                 case = {'part': 'chunk', 'format': fmt, 'view': view, 'hist': list(h2)}
                 res.evaluations += 1
                 res.transitions += len(h2)
@@ -627,7 +649,24 @@ def run_chunk_invariant(res, fmt, view, max_fields, deadline, only_hist=None):
                         res.outcome('AFTER-WRITE-RAISES')
                         nxt.append(h2)
                         continue
-                if rows_after is not None and rows_after != orig_rows:
+                sib_rows = None
+                if sib is not None:
+                    try:
+                        sib_rows = rows_of(sib, names)
+                        res.transitions += 1
+                    except observe.ObserverError:
+                        raise
+                    except Exception as e:
+                        res.fail('sub-chunk-unreadable-after-access-on-parent', case, dict(feats, last_field=h2[-1], exc=exc_name(e)),
+                                 expected='field values of a fresh sub-chunk', observed=repr(e)[:300], tb=tb_string(e))
+                        res.outcome('SUB-CHUNK-RAISES')
+                        nxt.append(h2)
+                        continue
+                if sib_rows is not None and sib_rows != orig_sib_rows:
+                    res.fail('sub-chunk-values-changed-by-access-on-parent', case, dict(feats, last_field=h2[-1]),
+                             expected=_s(orig_sib_rows), observed=_s(sib_rows))
+                    res.outcome('SUB-CHUNK-CHANGED')
+                elif rows_after is not None and rows_after != orig_rows:
                     res.fail('field-values-changed-by-write', case, dict(feats, last_field=h2[-1]),
                              expected=_s(orig_rows), observed=_s(rows_after))
                     res.outcome('VALUES-CHANGED')
